@@ -91,6 +91,8 @@ type Ctl struct {
 	WriteTxOpen int
 	CursorsOpen int
 	TotalCalls  int
+	// TotalWriteCommits counts committed write transactions over the whole run
+	TotalWriteCommits int
 	Hash        uint64 // running hash of (kind, update, key) of every call
 	FiredByKind [NKinds]int
 
@@ -296,6 +298,7 @@ func (tx *Tx) Commit() error {
 		tx.c.Commits++
 		if tx.wrote {
 			tx.c.WriteCommits++
+			tx.c.TotalWriteCommits++
 		}
 	}
 	tx.c.after(KCommit)
